@@ -472,7 +472,7 @@ func runC18(c *chk.Ctx) {
 		c.Cov["concurrency_constructs_not_controlled"] = cinfo.Unsupported
 		c.Incomplete = append(c.Incomplete, fmt.Sprintf("%d concurrency construct(s) of the library are not controlled by the explorer", len(cinfo.Unsupported)))
 	}
-	p := c18Params{Bound: chk.Pick(c, 2, 3), Bound3: chk.Pick(c, 1, 2), MaxExec: chk.Pick(c, 6000, 400000)}
+	p := c18Params{Bound: chk.Pick(c, 2, 3), Bound3: chk.Pick(c, 1, 2), MaxExec: chk.Pick(c, 6000, 30000)}
 	pool := *c.Pool
 	pool.Exe = exe
 	r := pool.Run("c18", p)
